@@ -611,6 +611,10 @@ void gv::generate(const std::string& tier, uint64_t seed) {
     { double y, x; std::string sa; aux_angle(r, f < 0, y, x, sa); run("m15_axes", {hx(a), hx(a * (1 - f)), hx(y), hx(x)}); }
   }
   run("m15_wgs84", {}); run("m15_reset0", {});
+  // latitude indices out of range: NaN from Convert / ToAuxiliary / FromAuxiliary
+  for (int k : {-1, 6, 7, -100}) { std::string ks = std::to_string(k); stratum("aux-index-out-of-range");
+    run("m15_conv", {hx(0.1), ks, "2", hx(0.6), hx(0.8)}); run("m15_conv", {hx(0.1), "2", ks, hx(0.6), hx(0.8)});
+    run("m15_toaux", {hx(0.1), ks, hx(0.6), hx(0.8)}); run("m15_fromaux", {hx(0.1), ks, hx(0.6), hx(0.8)}); }
   run("m15_ctor", {hx(-1.0), hx(0.1)}); run("m15_ctor", {hx(1.0), hx(1.0)}); run("m15_ctor", {hx(INFINITY), hx(0.0)}); run("m15_ctor", {hx(1.0), hx(NAN)});
   run("m15_axes", {hx(1.0), hx(0.0), hx(1.0), hx(1.0)}); run("m15_axes", {hx(1.0), hx(1.0), hx(1.0), hx(1.0)});
   // --- AuxAngle, Clenshaw
